@@ -82,9 +82,11 @@ ASSUMPTIONS = [
     'the sheet selector of a K card is absent or of magnitude < 9 (int() '
     'truncation is modelled there; a larger one is Err EUnmodelled); the '
     'theorems take it in {absent, 0, +1, -1}; t^2 >= 0',
-    'three-point planes: orientation is proved when no tested quantity lies '
-    'in the band 0 < |v| <= 1e-14 (the code\'s epsilon); the band is swept '
-    'numerically only',
+    'three-point planes: the manual\'s orientation is proved when no tested '
+    'quantity lies in the band 0 < |v| <= 1e-14 |n| (the code\'s epsilon); '
+    'inside the band the code follows the thresholded rule (proved) and '
+    'the opposite orientation is the open finding '
+    'p3_epsilon_band_orientation; the sweep oracle is exact',
     'X/Y/Z cone form: r1, r2 >= 0 (MCNP admissibility; the sheet is then the one '
     'containing both points, apex-coincident points included)',
     'the 5-entry TX/TY/TZ form is not an MCNP card; it is read as B = C',
@@ -551,11 +553,11 @@ def in_p3_band(prm):
         return True
 
 
-def ref_params(mn, prm, band=P3_BAND):
+def ref_params(mn, prm, band=0.0):
     '''(mnemonic, parameters) handed to the reference semantics. The 5-entry
     torus is the converter's own extension, read as B = C. Three-point planes
-    are oriented here in exact arithmetic (mcnpref.plane_from_points uses a
-    1e-12 tolerance, coarser than the code's 1e-14).'''
+    are oriented here in EXACT rational arithmetic by the manual's rules (no
+    tolerance: the code's 1e-14 band is a finding, not part of the oracle).'''
     if mn in ('tx', 'ty', 'tz') and len(prm) == 5:
         return mn, list(prm) + [prm[4]]
     if mn == 'p' and len(prm) == 9:
@@ -644,10 +646,27 @@ def sweep_card(rng, mn, prm, n_random=40, n_cross=8, ref=None):
 
 def finding_class(mn, prm, status, detail):
     '''Name of the open finding that this failing card belongs to, or None.'''
+    if mn == 'p' and len(prm) == 9 and status == 'wrong' and in_p3_band(prm):
+        # exactly this defect: some quantity of the orientation rule lies
+        # inside the code's 1e-14 band, the manual's exact rule and the
+        # thresholded rule pick opposite orientations, and the card is
+        # converted as the thresholded rule says (C02_P_three_points_thresholded)
+        try:
+            banded = exact_three_point_plane(prm, P3_BAND)
+        except ValueError:
+            return None
+        again, _ = sweep_card(random.Random(0), mn, prm, 40, 8,
+                              ref=('p', banded))
+        if again == 'ok':
+            return 'p3_epsilon_band_orientation'
     return None
 
 
-WITNESSES = []      # no open finding class
+T50 = 2.0 ** -50
+WITNESSES = [
+    ('p3_epsilon_band_orientation', 'p',
+     [0.0, 0.0, -T50, 0.0, 1.0, -T50, 1.0, 0.0, -T50]),
+]
 
 
 # minimised cases kept from defects, mutation self-tests and branch triggers;
@@ -1137,9 +1156,7 @@ def _run(res, tier, seed, proofs_ok):
             continue
         n_sweep += 1
         if mn == 'p' and len(prm) == 9 and in_p3_band(prm):
-            # inside the thresholds the code follows the thresholded rule
-            # (C02_P_three_points_thresholded); counted for the evidence
-            res.count('sweep:p3-inside-the-band (oracle uses the band)')
+            res.count('sweep:p3-inside-the-band')
         status, detail = sweep_card(rng, mn, prm,
                                     30 if quick else 120, 6 if quick else 25)
         swept[key] = status
